@@ -42,7 +42,39 @@ Theorem C04_match_none_partial :
 Proof. exact match_none_matches_nothing. Qed.
 Print Assumptions C04_match_none_partial.
 (** Full statement (":match none: nothing is matched by name at all") fails with
-    :getter on: the getter pass runs whatever the rule (DESIGN.md section 7, #14);
-    the "first same-named member decides" rule (#15) is why the converse of
-    C04_sources_and_optins needs [unique candidate]. Both are exercised by the
-    reference matcher of the harness. *)
+    :getter on: the getter pass runs whatever the rule (DESIGN.md section 7). *)
+
+(** The converse direction. In each pass the FIRST accessible candidate whose name equals the
+    field's under the case rule decides, and no later one is consulted (which is why "assigned
+    iff some fitting candidate exists" holds only for that first candidate): *)
+Theorem C04_first_same_named_candidate_decides :
+  forall d o mpos s2s lhs R cands,
+    name_pass d o mpos s2s lhs R cands =
+      match find (cand_ok d o lhs R) cands with
+      | None => ret PNotFound
+      | Some r => name_pass d o mpos s2s lhs R [r]
+      end.
+Proof. exact name_pass_first. Qed.
+Print Assumptions C04_first_same_named_candidate_decides.
+
+(** ... if that candidate is assignable as it stands (and the pair is not a slice pair, which is
+    copied instead) the field is assigned from it as it stands: *)
+Theorem C04_assignable_candidate_is_assigned :
+  forall d o mpos s2s lhs R cands r,
+    find (cand_ok d o lhs R) cands = Some r ->
+    (is_slice (expr_type lhs) && is_slice (expr_type r)) = false ->
+    assignable (d_env d) (expr_type r) (expr_type lhs) = true ->
+    name_pass d o mpos s2s lhs R cands = ret (PDone (Some (ASimple lhs (RNode r) (returns_error r))) false).
+Proof. exact name_pass_assignable. Qed.
+Print Assumptions C04_assignable_candidate_is_assigned.
+
+(** ... and when neither the getters (consulted only with :getter) nor the fields (consulted only
+    under :match name) offer an accessible member of that name, the field is left over and
+    reported `no match`: *)
+Theorem C04_no_candidate_no_match :
+  forall d o mpos s2s lhs R a ev,
+    (o_getter o = true -> forall r, In r (getter_nodes d R) -> cand_ok d o lhs R r = false) ->
+    (str_eqb (o_rule o) rule_name = true -> forall r, In r (field_nodes d R) -> cand_ok d o lhs R r = false) ->
+    name_match_with d o mpos s2s lhs R = (Ok a, ev) -> a = Some (ANoMatch lhs).
+Proof. exact name_match_no_candidate. Qed.
+Print Assumptions C04_no_candidate_no_match.
